@@ -274,6 +274,12 @@ class NamedObject:
           elif isinstance( u, list ):
             Q.extend( (v, indices+(i,)) for i, v in enumerate(u) )
 
+      elif name in getattr( sd, "NamedObject_fields", () ) and s.__dict__.get( name ) is not obj:
+        # s.w = 0 instead of s.w //= 0: the hardware object would stay in
+        # the design without a name that leads to it
+        raise FieldReassignError(f"The attempt to overwrite hardware field {name} of top{repr(s)[1:]} "
+                                 f"with a {type(obj).__name__} is illegal.")
+
     super().__setattr__( name, obj )
 
   def _collect_all_single( s, filt=lambda x: isinstance( x, NamedObject ) ):
